@@ -76,8 +76,11 @@ def make_app(cfg):
     if cfg.get('cookie_name'):
         kw['cookie_name'] = cfg['cookie_name']
     arg = cfg.get('arg_name') or 'cookie'
+    main_name = cfg.get('cookie_name') or 'clastic_%s' % arg
     ns = {'json': json, 'Response': Response}
-    exec('def ep(%s, request):\n'
+    second = cfg.get('second')
+    aux_param = ', aux' if second else ''
+    exec('def ep(%s%s, request):\n'
          '    c = %s\n'
          '    ops = json.loads(request.args.get("ops", "[]"))\n'
          '    before = dict(c)\n'
@@ -85,9 +88,19 @@ def make_app(cfg):
          '        if op[0] == "set": c[op[1]] = op[2]\n'
          '        elif op[0] == "del": c.pop(op[1], None)\n'
          '        elif op[0] == "clear": c.clear()\n'
-         '    return Response(json.dumps(before), mimetype="application/json")\n' % (arg, arg), ns)
-    app = Application([('/', ns['ep'])], middlewares=[SignedCookieMiddleware(**kw)])
-    return app, (cfg.get('cookie_name') or 'clastic_%s' % arg)
+         '    if request.args.get("aux") and %s:\n'
+         '        aux["n"] = aux.get("n", 0) + 1\n'
+         '    return Response(json.dumps(before), mimetype="application/json")\n' % (arg, aux_param, arg, 'True' if second else 'False'), ns)
+    mws = [SignedCookieMiddleware(**kw)]
+    aux_name = None
+    if second:
+        # a second signed-cookie middleware on the same application: its cookie name is a proper prefix of the main one's,
+        # an extension of it, or unrelated; listed before (outer) or after (inner) the main one
+        aux_name = {'prefix': main_name[:max(1, len(main_name) // 2)], 'extension': main_name + '2', 'other': 'zq_aux'}[second['name']]
+        aux_mw = SignedCookieMiddleware(arg_name='aux', cookie_name=aux_name, secret_key=SECRET + '-aux', expiry=expiry)
+        mws = [aux_mw] + mws if second['outer'] else mws + [aux_mw]
+    app = Application([('/', ns['ep'])], middlewares=mws)
+    return app, main_name, aux_name
 
 
 def apply_ops(data, ops):
@@ -156,7 +169,8 @@ class CookieSim(object):
         self.cfg = cfg
         self.clock = Clock()
         self.saved = install_clock(self.clock)
-        self.app, self.cookie_name = make_app(cfg)
+        self.app, self.cookie_name, self.aux_name = make_app(cfg)
+        self.aux_cookie = None
         self.ledger = []           # dict(cookie, payload, data, expires_at)
         self.client = [None, None]
         self.interesting = False
@@ -200,9 +214,17 @@ class CookieSim(object):
     def request(self, client, ops, sent, label):
         ctx = self.ctx
         q = 'ops=' + __import__('urllib.parse').parse.quote(json.dumps(ops))
+        touch_aux = bool(self.aux_name and ops)
+        if touch_aux:
+            q += '&aux=1'
         hdrs = {}
+        parts = []
         if sent is not None:
-            hdrs['Cookie'] = '%s=%s' % (self.cookie_name, sent)
+            parts.append('%s=%s' % (self.cookie_name, sent))
+        if self.aux_cookie is not None:
+            parts.append('%s=%s' % (self.aux_name, self.aux_cookie))
+        if parts:
+            hdrs['Cookie'] = '; '.join(parts)
         env = make_environ('/', 'GET', q, headers=hdrs)
         r = call_environ(self.app, env)
         ctx.requests += 1
@@ -227,6 +249,13 @@ class CookieSim(object):
             self.interesting = True
             self.pending = False
         new = apply_ops(presented, ops)
+        if self.aux_name:
+            asc = [v for k, v in r.headers if k.lower() == 'set-cookie' and v.startswith(self.aux_name + '=')]
+            if asc:
+                self.aux_cookie = asc[-1].split(';', 1)[0].split('=', 1)[1]
+            elif touch_aux:
+                ctx.mismatch('no-set-cookie-second', '%s: the second cookie middleware\'s data changed but its Set-Cookie is missing' % what)
+                return
         sc = [v for k, v in r.headers if k.lower() == 'set-cookie' and v.startswith(self.cookie_name + '=')]
         modified = not same_json(new, presented) or any(op[0] == 'set' for op in ops)
         if sc:
@@ -293,7 +322,9 @@ def machine():
     ops = st.lists(op, max_size=3)
     cfgs = st.fixed_dictionaries({'expiry': st.sampled_from(['session', 'never', 5, 100, 100, 3600]),
                                   'arg_name': st.sampled_from([None, None, 'session', 'sess_data']),
-                                  'cookie_name': st.sampled_from([None, None, 'sid', 'my.cookie'])})
+                                  'cookie_name': st.sampled_from([None, None, 'sid', 'my.cookie']),
+                                  'second': st.one_of(st.none(), st.none(), st.fixed_dictionaries({
+                                      'name': st.sampled_from(['prefix', 'extension', 'other']), 'outer': st.booleans()}))})
 
     class CookieMachine(RuleBasedStateMachine):
         ctx = None
